@@ -579,6 +579,13 @@ def discharge(site, fx, policy):
                     return "D-count-bounded: x + (a count over the elements from x on) <= len of the slice"
             return None
         if op == "Sub":
+            # x.next_multiple_of(k) - x: the next multiple of k at or above x is not below x
+            ln_ = FL.peel(l)
+            lnv_ = value_expr(l, fam)
+            ln_ = FL.peel(lnv_) if lnv_ is not None else ln_
+            if F.is_call(ln_, "core::num::<impl usize>::next_multiple_of", "core::num::<impl u32>::next_multiple_of",
+                         "core::num::<impl u64>::next_multiple_of") and ln_.get("args") and same_value(ln_["args"][0], r, fam):
+                return "D-next-multiple: x.next_multiple_of(k) - x with next_multiple_of(x) >= x"
             # len(x) - p with p <= len(x)
             lp_ = FL.peel(l)
             if F.is_call(lp_, *LEN_CALLS) and pos_over_same(lp_["args"][0], r, fam):
@@ -750,7 +757,7 @@ def discharge(site, fx, policy):
             # x.next_multiple_of(N) / x.div_ceil(N) with x a len() (<= isize::MAX) and N a small positive literal: no overflow, no zero divisor
             nn = int_lit(args[1]) if len(args) == 2 else None
             a0 = value_expr(args[0], fam)
-            if nn is not None and 0 < nn <= 4096 and a0 is not None and F.is_call(FL.peel(a0), *LEN_CALLS):
+            if nn is not None and 0 < nn <= 4096 and (is_len_value(args[0], fam) or (a0 is not None and F.is_call(FL.peel(a0), *LEN_CALLS))):
                 return "D-round-up: rounding a len() (<= isize::MAX) up to a multiple of the literal %d cannot overflow" % nn
             return None
         if kind == "unwrap":
@@ -1274,6 +1281,38 @@ def upper_bound(n, fam, depth=0):
     return None
 
 
+def is_len_value(e, fam, depth=0):
+    """e is a `len()` of a slice/str/Vec (<= isize::MAX) - directly, through `let`, or as a `usize` parameter of a private function
+    every call of which passes such a value"""
+    if depth > 3:
+        return False
+    v = value_expr(e, fam)
+    v = FL.peel(v) if v is not None else FL.peel(e)
+    if F.is_call(v, *LEN_CALLS):
+        return True
+    if v.get("k") in ("Var", "Upvar"):
+        root = fam.root
+        if root.get("kind") not in ("Fn", "AssocFn") or root.get("reachable_pub"):
+            return False
+        pi = [i for i, prm in enumerate(root["params"]) if prm.get("pat") and prm["pat"].get("k") == "Bind" and prm["pat"].get("id") == v["id"]
+              and prm.get("ty") == "usize"]
+        if len(pi) != 1 or fam.origins.is_reassigned(v["id"]):
+            return False
+        fx_, n_calls = fam.fx, 0
+        for b in fx_.bodies.values():
+            if b["krate"] != "proguard":
+                continue
+            for x in F.walk(b["body"]):
+                if x.get("k") == "Call" and "fn" in x and fx_.by_dp.get(x["fn"].get("dp")) == root["path"]:
+                    n_calls += 1
+                    if pi[0] >= len(x["args"]) or not is_len_value(x["args"][pi[0]], family_of(fx_, b), depth + 1):
+                        return False
+                elif x.get("k") == "Zst" and "fn" in x and fx_.by_dp.get(x["fn"].get("dp")) == root["path"]:
+                    return False
+        return n_calls > 0
+    return False
+
+
 def next_multiple_of_same(l, r, fam):
     """N if l is (a let-bound copy of) `r.next_multiple_of(N)` with a positive literal/constant N, and r is a len(): l >= r and
     l - r < N; the rounding itself cannot overflow because a len() is <= isize::MAX"""
@@ -1284,7 +1323,7 @@ def next_multiple_of_same(l, r, fam):
     nn = int_lit(lv["args"][1])
     if nn is None or not (0 < nn <= 4096):
         return None
-    if not F.is_call(FL.peel(r), *LEN_CALLS) or not same_value(lv["args"][0], r, fam):
+    if not is_len_value(r, fam) or not same_value(lv["args"][0], r, fam):
         return None
     return nn
 
